@@ -231,3 +231,9 @@ func ceilDiv(a, b *big.Int) *big.Int {
 }
 
 func amountOf(cs sdk.Coins, denom string) *big.Int { return bi(cs.AmountOf(denom)) }
+
+// boundaryHeight picks the initial height of case c so that short chains cross the byte-width boundaries of
+// height-keyed queues (…FF -> …00 in the 1st, 2nd, 3rd and 4th byte of the big-endian height).
+func boundaryHeight(c int) int64 {
+	return []int64{1, 200, 65400, 16777100, 4294967200}[c%5]
+}
